@@ -76,11 +76,72 @@ def removal_structure(ctx, pre, post, d, u, r):
                      '-r in that direction only": sizes %r -> %r' % (u, r, d, pre['sizes'], post['sizes']), what='structure')
 
 
+def build_shared_kv(sd, rng):
+    """surface whose two directions have equal degree and size and are given the SAME list object as knot vector (possible when
+    knot vectors are not normalised: the setters then keep the caller's list)"""
+    from geomdl import BSpline, NURBS
+    p = sd['degrees'][0]
+    n = sd['sizes'][0]
+    sd2 = dict(sd, degrees=[p, p], sizes=[n, n], normalize_kv=False)
+    kv = G.knot_vector(rng, p, n, 'bezier' if n == p + 1 else 'random', (0.0, 2.0))
+    sd2['kvs'] = [kv, kv]
+    sd2['ctrlpts'] = [G.rand_point(rng, 3, 'uniform') for _ in range(n * n)]
+    if sd['rational']:
+        sd2['weights'] = G.rand_weights(rng, n * n, 'uniform')
+    o = (NURBS if sd['rational'] else BSpline).Surface(normalize_kv=False)
+    o.degree_u = o.degree_v = p
+    o.set_ctrlpts(G.ctrlptsw_of(sd2), n, n)
+    o.knotvector_u = kv
+    o.knotvector_v = kv        # same object on purpose
+    return o, sd2
+
+
+def check_shared(case, ctx, rng):
+    """the knot to be removed already sits in a knot vector whose list object is shared by both directions"""
+    from geomdl import operations, BSpline, NURBS
+    sd = case['sd']
+    o, sd = build_shared_kv(sd, rng)
+    ctx.tag('shared-kv-object', 'pdim2', 'rational' if sd['rational'] else 'nonrational', 'unnormalized')
+    S0 = G.defn_of(o)
+    sc = so.scale_of_defn(S0)
+    p = sd['degrees'][0]
+    pick = so.pick_insertion(rng, o, 0, prefer_knot=0.0, mindist=0.05)
+    if pick is None:
+        raise Reject()
+    x = pick[0]
+    r = rng.randint(1, p)
+    operations.insert_knot(o, [x, x], [r, r])
+    kv = list(o.knotvector_u)
+    o2 = (NURBS if sd['rational'] else BSpline).Surface(normalize_kv=False)
+    o2.degree_u = o2.degree_v = p
+    o2.set_ctrlpts(G.hom_pts_of(o), *G.sizes_of(o))
+    o2.knotvector_u = kv
+    o2.knotvector_v = kv          # one list object for both directions
+    d = rng.randrange(2)
+    k = rng.randint(1, r)
+    pre = G.snapshot(o2)
+    with so.quiet():
+        so.call_remove(o2, d, x, k, rng.choice(['operations', 'method']))
+    post = G.snapshot(o2)
+    ctx.ok('removal')
+    ctx.tag('via:operations', 'dir:' + 'uv'[d], 'partial-removal' if k < r else 'full-removal')
+    if not removal_structure(ctx, pre, post, d, x, k):
+        return
+    S1 = G.defn_of_snapshot(post)
+    probes = [q for q in so.probe_params(rng, S0, nrand=6, maxn=20) if so.clear_of_knots(S1, q)]
+    if so.compare_object(ctx, o2, S0, probes, 1e-9 * sc, 'shape-changed/library-eval', 'knot vectors sharing one list object: removing %r x%d in '
+                         'direction %d changed the shape' % (x, k, d), 'probe-lib'):
+        so.compare_defns(ctx, S1, S0, probes, 1e-9 * sc, 'shape-changed/definition', 'shared knot-vector object: definition differs', 'probe-defn')
+    ctx.nontriv(True)
+
+
 def check(case, ctx):
     from geomdl import operations
     sd = case['sd']
     rng = random.Random(case['seed'])
     pdim = sd['pdim']
+    if pdim == 2 and case['seed'] % 7 == 0:
+        return check_shared(case, ctx, rng)
     o = G.build(sd)
     S0 = G.defn_of(o)
     orig = G.snapshot(o)
